@@ -118,9 +118,15 @@ Agree == \A a, b \in 1..Len(res) :
       /\ \A i, j \in Idx : Abs(res[a].T6[i][j] - res[b].T6[i][j]) <= 100
       /\ \A i \in Idx : Abs(res[a].pi6[i] - res[b].pi6[i]) <= 100
 
+(* ... and they agree on WHETHER the iteration cap was exhausted: run on the same counts with the same cap, one
+   implementation cannot report a converged model where the other reports that it ran out of sweeps *)
+WarnAlike == \A a, b \in 1..Len(res) :
+   (res[a].T6 # <<>> /\ res[b].T6 # <<>>) => (res[a].warned <=> res[b].warned)
+
 Finished == pc = "ret" /\ l = Len(Ev) + 1
 
 Verdict == fails \cup (IF Agree THEN {} ELSE {<<"Agree", 0>>})
+                 \cup (IF WarnAlike THEN {} ELSE {<<"WarnAlike", 0>>})
                  \cup (IF Precondition THEN {} ELSE {<<"PreconditionNotMet", 0>>})
 
 Report == Finished => PrintT(<<"VERDICT", tid, Verdict>>)
